@@ -3,6 +3,7 @@ import re
 from vfy.lemma import lemma, P, Duck, give_up
 from vfy.lemmas.common import S, all_in, by, fixed, cp_in
 from mistletoe.markdown_renderer import MarkdownRenderer, Fragment
+from vfy.lemmas.c09 import SPELLINGS as SPELLINGS5, SP as SP5
 
 ASSUMPTIONS = ['C10/W1b: words are duck strings that carry only a symbolic LENGTH and their identity (the fill algorithm never looks inside a word)',
                'C10/W3: blocks_to_lines is replaced by a recorder to observe the budget handed to the children']
@@ -237,6 +238,33 @@ def w4_meaning(c1: int, c2: int, c3: int, c4: int, L: int) -> bool:
     if norm_html(mistletoe.markdown(t)) != norm_html(mistletoe.markdown(s)):
         return False
     return t2 == t
+
+
+def w5_replay(c1, L):
+    from vfy.lemmas.c09 import round_trip_ok, describe_round_trip
+    s = SPELLINGS5[P('sk')].format(chr(c1))
+    if not (L >= 1 and chr(c1) in SP5 and words_inert(s)):
+        return False, 'pre-condition false'
+    try:
+        ok = round_trip_ok(s, False, L)
+    except Exception as e:
+        return True, 'reflow of %r at L=%d raised %s: %s' % (s, L, type(e).__name__, e)
+    return (not ok), describe_round_trip(s, False, L)
+
+
+@lemma('W5.spellings', 'C10', replay=w5_replay, quick=[{'sk': k} for k in sorted(SPELLINGS5)], timeout=900, per_path=120,
+       covers=['markdown_renderer.py:MarkdownRenderer.render', 'markdown_renderer.py:MarkdownRenderer.fragments_to_lines', 'markdown_renderer.py:MarkdownRenderer.render_setext_heading',
+               'markdown_renderer.py:MarkdownRenderer.render_heading', 'markdown_renderer.py:MarkdownRenderer.render_thematic_break', 'markdown_renderer.py:MarkdownRenderer.render_table'],
+       note='the spelling skeletons of C09-M5 (one symbolic character at two or three places of a construct) reflowed with L >= 1 an unbounded symbolic int: '
+            'same meaning up to white space, same link definitions, second reflow is the identity')
+def w5_spellings(c1: int, L: int) -> bool:
+    """
+    pre: all_in(SP5, 1, c1) and L >= 1
+    pre: words_inert(SPELLINGS5[P('sk')].format(chr(c1)))
+    post: _
+    """
+    from vfy.lemmas.c09 import round_trip_ok
+    return round_trip_ok(SPELLINGS5[P('sk')].format(chr(c1)), False, L)
 
 
 def witness_budget_zero():
